@@ -1,9 +1,226 @@
-"""C19b placeholder: filled in with the model-level energy check (see props/c19.py)."""
+"""C19b - the qtools energy report: non-negative entries, entries are the documented functions of the reported
+types / counts / tensor sizes, totals and extracted sums add up.
+
+Kernel P: small quantized programs (dense / conv / depthwise stacks, average pooling, an Add merge, a
+batch-normalisation) x every memory option (weights_on_memory x activations_on_memory x rd_wr_on_io x
+min_sram_size).  The reference is an independent re-implementation of the published Horowitz model
+(config_public.py tables) evaluated on the types, operation counts and tensor shapes that QTools reports.
+"""
+import itertools
+
+import numpy as np
+
+from mc import common
+
+FPM_ADD = [0.003125, 0]
+FPM_MUL = [0.002994791667, 0.001041666667, 0]
+SRAM_RD = [9.02427321e-04, -2.68847858e-02, 2.08900804e-01, 0.0]
+DRAM_RD = [20.3125, 0]
+FP = {"fp32": (0.9, 3.7), "fp16": (0.4, 1.1)}
+PROGRAMS = ["dense", "conv_dense", "dw_conv", "conv_pool_dense", "diamond_add", "conv_bn_act", "po2_binary"]
+MEM = list(itertools.product(("dram", "sram", "fixed"), ("dram", "sram"), (True, False), (0, 2 ** 20)))
 
 
 def enumerate_cases(tier, seed):
-  return []
+  return [dict(sub="b", prog=p, wmem=m[0], amem=m[1], io=m[2], minsram=m[3], _seed=seed) for p in PROGRAMS for m in MEM]
+
+
+def poly(c, x):
+  return max(float(np.polyval(c, x)), 0.0)
+
+
+def build(prog):
+  tf = common.tf_init()
+  import qkeras  # pylint: disable=import-outside-toplevel
+  L = tf.keras.layers
+  qb, qb2 = "quantized_bits(4,1,1,alpha=1)", "quantized_bits(6,2,1,alpha=1)"
+  if prog == "dense":
+    inp = L.Input((5,), name="inp")
+    x = qkeras.QDense(3, kernel_quantizer=qb, bias_quantizer=qb2, name="d0")(inp)
+  elif prog == "conv_dense":
+    inp = L.Input((5, 5, 3), name="inp")
+    x = qkeras.QConv2D(2, 2, kernel_quantizer=qb, bias_quantizer=qb2, name="c0")(inp)
+    x = qkeras.QActivation("quantized_relu(3,1)", name="a0")(x)
+    x = L.Flatten(name="f")(x)
+    x = qkeras.QDense(3, kernel_quantizer="ternary(alpha=1)", bias_quantizer=None, use_bias=False, name="d1")(x)
+  elif prog == "dw_conv":
+    inp = L.Input((5, 5, 3), name="inp")
+    x = qkeras.QDepthwiseConv2D(2, depthwise_quantizer=qb, bias_quantizer=qb2, name="dw0")(inp)
+    x = qkeras.QActivation("quantized_relu(3,1)", name="a0")(x)
+    x = qkeras.QConv2D(2, 1, kernel_quantizer="quantized_po2(3)", bias_quantizer=qb2, name="c1")(x)
+  elif prog == "conv_pool_dense":
+    inp = L.Input((6, 6, 2), name="inp")
+    x = qkeras.QConv2D(2, 2, kernel_quantizer=qb, bias_quantizer=qb2, name="c0")(inp)
+    x = qkeras.QActivation("quantized_relu(4,1)", name="a0")(x)
+    x = L.AveragePooling2D(2, name="p0")(x)
+    x = L.Flatten(name="f")(x)
+    x = qkeras.QDense(2, kernel_quantizer=qb, bias_quantizer=qb2, name="d1")(x)
+  elif prog == "diamond_add":
+    inp = L.Input((5,), name="inp")
+    a = qkeras.QDense(3, kernel_quantizer=qb, bias_quantizer=qb2, name="da")(inp)
+    b = qkeras.QDense(3, kernel_quantizer="binary(alpha=1)", bias_quantizer=qb2, name="db")(inp)
+    x = L.Add(name="add")([a, b])
+    x = qkeras.QActivation("quantized_bits(6,2,1)", name="a0")(x)
+  elif prog == "conv_bn_act":
+    inp = L.Input((5, 5, 3), name="inp")
+    x = qkeras.QConv2D(2, 2, kernel_quantizer=qb, bias_quantizer=qb2, name="c0")(inp)
+    x = qkeras.QBatchNormalization(name="bn")(x)
+    x = qkeras.QActivation("quantized_relu(4,1)", name="a0")(x)
+  else:
+    inp = L.Input((5,), name="inp")
+    x = qkeras.QDense(4, kernel_quantizer="quantized_po2(4)", bias_quantizer="quantized_po2(4)", name="d0")(inp)
+    x = qkeras.QActivation("binary(alpha=1)", name="a0")(x)
+    x = qkeras.QDense(2, kernel_quantizer="binary(alpha=1)", bias_quantizer=qb2, name="d1")(x)
+  return tf.keras.Model(inp, x)
+
+
+def gv(item, key):
+  return item.get(key) if isinstance(item, dict) else getattr(item, key, None)
+
+
+def op_energy(q, mode, bits):
+  """OP[get_op_type(q)][mode](bits) of the published model."""
+  if q.is_floating_point:
+    add, mul = FP["fp" + str(q.bits)]
+    return add if mode == "add" else mul
+  if mode == "mul":
+    return poly(FPM_MUL, bits)
+  return poly(FPM_ADD, bits)
+
+
+def mem_rd(is_input, shape, mode, minsram, io, bits, is_tensor=True):
+  if is_input:
+    mode = "dram" if io else "sram"
+  if is_tensor:
+    shape = shape[1:]
+  total = float(np.prod(shape)) * bits
+  lg = np.log2(max(total, minsram))
+  e = 0.0
+  if mode == "dram":
+    e += poly(DRAM_RD, total)
+    if io:
+      e += np.ceil(total / 64.0) * poly(SRAM_RD, lg)
+  elif mode == "sram":
+    e += np.ceil(total / 64.0) * poly(SRAM_RD, lg)
+  return e
+
+
+def mem_wr(is_output, shape, mode, minsram, io, bits):
+  if is_output:
+    mode = "dram" if io else "sram"
+  shape = shape[1:]
+  total = float(np.prod(shape)) * bits
+  lg = np.log2(max(total, minsram))
+  e = 0.0
+  if mode == "dram":
+    if io:
+      e += np.ceil(total / 64.0) * poly(SRAM_RD, lg)
+    e += poly(DRAM_RD, total)
+  elif mode == "sram":
+    e += np.ceil(total / 64.0) * poly(SRAM_RD, lg)
+  return e
 
 
 def run_case(case):
-  raise NotImplementedError
+  tf = common.tf_init()
+  common.reset_keras()
+  from qkeras import quantizers as Q  # pylint: disable=import-outside-toplevel
+  from qkeras.qtools import run_qtools  # pylint: disable=import-outside-toplevel
+  from qkeras.qtools import config_public  # pylint: disable=import-outside-toplevel
+  viol = []
+
+  def bad(clause, what):
+    key = "b:" + clause
+    if len(viol) < 6 and not any(v["key"] == key for v in viol):
+      viol.append({"key": key, "what": "%s [program %s, weights_on_memory=%s activations_on_memory=%s rd_wr_on_io=%s "
+                   "min_sram_size=%d]" % (what, case["prog"], case["wmem"], case["amem"], case["io"], case["minsram"]),
+                   "detail": {"case": case}})
+  model = build(case["prog"])
+  for i, l in enumerate(model.layers):
+    ws = l.get_weights()
+    if ws:
+      l.set_weights([(common.tensor(w.shape, "grid7", i + j) * np.float32(0.7) + (0.3 if "variance" in l.weights[j].name else 0)).astype(np.float32)
+                     for j, w in enumerate(ws)])
+  qt = run_qtools.QTools(model, process="horowitz", source_quantizers=[Q.quantized_bits(4, 1, 1)], is_inference=False,
+                         keras_quantizer="fp32", keras_accumulator="fp32", for_reference=False)
+  e = qt.pe(weights_on_memory=case["wmem"], activations_on_memory=case["amem"], min_sram_size=case["minsram"],
+            rd_wr_on_io=case["io"])
+  lm = qt._layer_map            # pylint: disable=protected-access
+  dmap = lm["layer_data_type_map"]
+  evals = 0
+  total_ref = 0.0
+  nonzero = 0
+  for layer in model.layers:
+    if layer not in dmap:
+      continue
+    item = dmap[layer]
+    cn = layer.__class__.__name__
+    if layer.name not in e:
+      bad("layer-missing", "layer %s is in the data type map but not in the energy report" % layer.name)
+      continue
+    got = e[layer.name]["energy"]
+    is_in, is_out = layer in lm["input_layers"], layer in lm["output_layers"]
+    iql = gv(item, "input_quantizer_list")
+    ishape = layer.input_shape if isinstance(layer.input_shape, list) else [layer.input_shape]
+    ref_in = sum(mem_rd(is_in, s, case["amem"], case["minsram"], case["io"], q.bits) for s, q in zip(ishape, iql))
+    ref_out = mem_wr(is_out, gv(item, "output_shapes"), case["amem"], case["minsram"], case["io"], gv(item, "output_quantizer").bits)
+    ref_par = 0.0
+    if cn in ("QBatchNormalization",):
+      s = len(layer.get_weights()[0])
+      for k in ("gamma_quantizer", "beta_quantizer", "mean_quantizer", "variance_quantizer"):
+        q = item[k]
+        if q:
+          ref_par += mem_rd(False, (s,), case["wmem"], case["minsram"], case["io"], q.bits, is_tensor=False)
+    elif gv(item, "weight_quantizer") is not None:
+      ref_par += mem_rd(False, gv(item, "w_shapes"), case["wmem"], case["minsram"], case["io"], gv(item, "weight_quantizer").bits, is_tensor=False)
+      if gv(item, "bias_quantizer"):
+        ref_par += mem_rd(False, gv(item, "b_shapes"), case["wmem"], case["minsram"], case["io"], gv(item, "bias_quantizer").bits, is_tensor=False)
+    count = gv(item, "operation_count")
+    ref_op = 0.0
+    if cn in ("QConv2D", "QConv1D", "QDepthwiseConv2D", "QDense"):
+      m, a = gv(item, "multiplier"), gv(item, "accumulator")
+      ref_op = count * (m.gate_factor * op_energy(m.output, m.implemented_as(), m.gate_bits) + op_energy(a.output, "add", a.output.bits))
+    elif cn == "AveragePooling2D":
+      a = gv(item, "pool_sum_accumulator")
+      ref_op = count * op_energy(a.output, "add", a.output.bits)
+    elif cn == "Add":
+      m = gv(item, "multiplier")
+      ref_op = (len(iql) - 1) * count * m.gate_factor * op_energy(m.output, m.implemented_as(), m.gate_bits)
+    elif cn == "QBatchNormalization":
+      for k in ("internal_divide_quantizer", "internal_multiplier"):
+        d = item[k]
+        if d:
+          ref_op += d.gate_factor * op_energy(d.output, d.implemented_as(), d.gate_bits)
+      ref_op *= count
+    ref = {"inputs": ref_in, "outputs": ref_out, "parameters": ref_par, "op_cost": ref_op}
+    total_ref += sum(ref.values())
+    for k, v in ref.items():
+      evals += 1
+      g = got[k]
+      if not np.isfinite(g) or g < 0:
+        bad("non-negative:" + k, "layer %s: energy entry %s = %r" % (layer.name, k, g))
+      elif abs(g - float("{0:.2f}".format(v))) > 1e-9 * max(1.0, abs(v)) + 0.011:
+        bad("entry:%s:%s" % (k, cn), "layer %s (%s): %s = %r, the documented function of the reported types / counts / sizes gives %.4f" % (
+            layer.name, cn, k, g, v))
+      if g > 0:
+        nonzero += 1
+  evals += 1
+  if abs(e["total_cost"] - int(total_ref)) > 1:
+    bad("total", "total_cost = %r, sum of all layer entries = %.3f" % (e["total_cost"], total_ref))
+  for name, setting in (("include_energy", config_public.config_settings["include_energy"]),
+                        ("all", {"default": ["inputs", "outputs", "parameters", "op_cost"]}),
+                        ("ops", {"default": ["op_cost"]})):
+    want = 0.0
+    for ln, entry in e.items():
+      if ln == "total_cost":
+        continue
+      keys = setting.get(entry["class_name"], setting.get("default", []))
+      want += sum(entry["energy"][k] for k in keys)
+    got_sum = qt.extract_energy_sum(setting, e)
+    evals += 1
+    if got_sum != int(want):
+      bad("extract_energy_sum:" + name, "extract_energy_sum = %r, sum of the selected entries = %r" % (got_sum, int(want)))
+  return {"evals": evals, "transitions": 1, "nontrivial": int(nonzero >= 2),
+          "state": "b:%s:%s:%s:%s:%d" % (case["prog"], case["wmem"], case["amem"], case["io"], case["minsram"]),
+          "digest": common.digest(repr(sorted((k, repr(v)) for k, v in e.items()))), "violations": viol, "traces": evals,
+          "sample": {"sub": "b", "program": case["prog"], "total_cost": e["total_cost"]}}
